@@ -436,7 +436,12 @@ func (tree *ObjectTree) toString(w io.Writer, padBuf *bytes.Buffer, index uint32
 	}
 
 	if curObj.opcode == pOpMethod {
-		kfmt.Fprintf(w, ", argCount: %d", uint8(tree.ArgAt(curObj, 1).value.(uint64)&0x7))
+		// A method that was left behind by a failed parse may lack its flags
+		if flagsObj := tree.ArgAt(curObj, 1); flagsObj != nil {
+			if flags, ok := flagsObj.value.(uint64); ok {
+				kfmt.Fprintf(w, ", argCount: %d", uint8(flags&0x7))
+			}
+		}
 	}
 
 	kfmt.Fprintf(w, ", table: %d, index: %d, offset: 0x%x", curObj.tableHandle, curObj.index, curObj.amlOffset)
